@@ -552,6 +552,10 @@ impl Group {
     /// Check the signature on an RRset.
     ///
     /// Follow [RFC 4035, Section 5.3](https://www.rfc-editor.org/rfc/rfc4035.html#section-5.3).
+    ///
+    /// The result of this function is cached, so it must not depend on
+    /// the current time. The validity period of the signature is checked
+    /// by [`Self::check_sig_cached`].
     fn check_sig(
         &self,
         sig: &Record<Name<Bytes>, Rrsig<Bytes, Name<Bytes>>>,
@@ -560,7 +564,6 @@ impl Group {
         key_name: &Name<Bytes>,
         key_tag: u16,
     ) -> bool {
-        let ts_now = Timestamp::now();
         let rtype = self.rtype();
         let owner = self.owner();
         let labels = owner.iter().count() - 1;
@@ -595,17 +598,6 @@ impl Group {
         // - The number of labels in the RRset owner name MUST be greater than
         //   or equal to the value in the RRSIG RR's Labels field.
         if labels < rrsig.labels() as usize {
-            return false;
-        }
-
-        // RFC 4035, Section 5.3.1:
-        // - The validator's notion of the current time MUST be less than or
-        //   equal to the time listed in the RRSIG RR's Expiration field.
-        // - The validator's notion of the current time MUST be greater than or
-        //   equal to the time listed in the RRSIG RR's Inception field.
-        if ts_now.canonical_gt(&rrsig.expiration())
-            || ts_now.canonical_lt(&rrsig.inception())
-        {
             return false;
         }
 
@@ -651,6 +643,21 @@ impl Group {
         key_tag: u16,
         cache: &SigCache,
     ) -> bool {
+        // RFC 4035, Section 5.3.1:
+        // - The validator's notion of the current time MUST be less than or
+        //   equal to the time listed in the RRSIG RR's Expiration field.
+        // - The validator's notion of the current time MUST be greater than or
+        //   equal to the time listed in the RRSIG RR's Inception field.
+        //
+        // This has to be checked every time. A cached result may have been
+        // computed when the signature was still (or not yet) valid.
+        let ts_now = Timestamp::now();
+        if ts_now.canonical_gt(&sig.data().expiration())
+            || ts_now.canonical_lt(&sig.data().inception())
+        {
+            return false;
+        }
+
         let mut signed_data = Vec::<u8>::new();
         sig.data()
             .signed_data(&mut signed_data, &mut self.rr_set())
